@@ -22,9 +22,11 @@ func Child(args []string) int { return childMain(args) }
 func Run(r *ev.Run) {
 	r.Rule = "cases = (a) controlled executions: several v2 keystore handles over ONE in-memory backend, every backend call (Lock/RLock/Get/Put/Rename/Unlock...) of a thread is a scheduling point and a scheduler that models the store lock picks the next call — seeded random programs and schedules (quick: 300 × (2 writers + 1 reader) × 3-4 operations; thorough: + 20000 × (3 writers + 1 reader)) and, thorough only, exhaustive depth-first enumeration of all interleavings of five fixed 2-writers × 2-operations (+1 reader) scenarios; " +
 		"(a') controlled executions over the REAL lock of the directory back end (flock + in-process mutex, nothing modelled): 1-2 reader and 1-2 ring-level writer goroutines SHARING one keystore handle plus a writer on a second handle of the same directory, every back-end call a scheduling point, a granted lock call that stays inside the call is a waiting thread — seeded random schedules (quick 30, thorough 200), three directed schedules per scenario (reader inside while the writer of the same handle performs the first 1/2/3 calls of its write cycle, then the other handle's writer), thorough: depth-first enumeration (capped) of one scenario; " +
+		"(a'') stale-view schedules at operation granularity, one goroutine executing the operations of three ring handles A, B, C on real keystore handles over a shared in-memory back end and over one directory (a DirectoryBackend with its flock per handle): B (and a bystander C) opens the ring — two keys, the key under test in each of the five live states — A updates (each valid state change of that key, its destruction, the current marker, a new key, the other key, an overwriting import; in some orders two updates), B updates on its stale view with each locally valid update (the several-transaction DestroyKey on the key A touched always; a seeded sample of the other combinations in the quick tier; orders: stale by one update, by two, opened between A's updates, control), B updates again; after EVERY operation the complete view (state, validity, formats, public/private/symmetric key bytes or the exact error class, current marker) is read through every open ring handle — first through the one that has just operated or been refused — and through a fresh reader; in ALL workloads every ring-level update, acknowledged or refused, is followed at once by such a complete read through its ring handle; " +
 		"(b) free-running -race stress: 6 readers + 2 writers sharing one handle with 2 writers sharing a second handle (in-memory and directory),  8-32 goroutines with separate handles on one in-memory backend and on one directory backend (flock), 3 OS processes × 2 goroutines on one directory, one handle shared by 8-32 reader goroutines while another handle rotates keys; (c) v1: one filesystem keystore handle shared by 8-32 goroutines calling 12 read-only getters over 4-6 clients with cache sizes {1,2,unbounded,off}. " +
 		"Every v2 history is recorded at the API boundary with one logical clock and judged per key ring by porcupine against the sequential key-ring model plus the final-state oracle; every v1 result is compared with the value read sequentially beforehand. " +
-		"evaluations = controlled executions + stress actions + v1 getter calls. distinct_nontrivial = distinct interleaving signatures (sequence of (thread, backend op)) of controlled executions in which the threads really interleaved (at least as many context switches as threads), plus one class per clean stress configuration and per (v1 getter, cache size) that returned a verified-correct key"
+		"A refused update must leave no trace: the view through the refused handle is its previous view or the ring as the store holds it at a point inside the call (part of the linearizability check), and a view read again without an operation of its handle has not changed. " +
+		"evaluations = controlled executions + stale-view executions + stress actions + v1 getter calls. distinct_nontrivial = distinct interleaving signatures (sequence of (thread, backend op)) of controlled executions in which the threads really interleaved (at least as many context switches as threads), plus one class per (back end, ring kind, state of the key, A's update, B's update, order, outcome of B's update) of a clean stale-view execution, per clean stress configuration and per (v1 getter, cache size) that returned a verified-correct key"
 	r.Assumptions = []string{
 		"crypto library replaced by the pure-Go gothemis stand-in (Secure Cell Seal / EC keys contract)",
 		"fully controlled (modelled-lock) schedules cover the in-memory backend only; the directory backend is driven under schedules controlled at back-end call granularity as far as its real lock is deterministic (a thread inside a granted lock call for 6 ms counts as waiting; wall clock is used for that only, never by an oracle) and by free-running stress; several processes by free-running stress; Redis backends not covered",
@@ -62,6 +64,10 @@ func Run(r *ev.Run) {
 		phase("controlled dir exhaustive", func() { w.dirExhaustive(r, 800) })
 	}
 
+	// (a'') stale-view schedules at operation granularity with complete views through every handle after every operation
+	phase("stale views mem", func() { w.staleViews(r, "mem", staleMemStore, r.Pick(50, -1), 1) })
+	phase("stale views dir", func() { w.staleViews(r, "dir", staleDirStore, r.Pick(20, 250), r.Pick(0, 1)) })
+
 	// (b) free-running stress
 	g := r.Pick(8, 32)
 	hot := []target{{"alpha", "sym"}, {"alpha", "pair"}, {"bravo", "hmac"}}
@@ -96,10 +102,14 @@ func Run(r *ev.Run) {
 		"v2_successful_addkeys_traced_to_final_state", "v2_ring_histories_linearizable", "stress_actions_mem", "stress_actions_dir", "multiprocess_actions",
 		"shared_handle_reads_mem", "shared_handle_reads_dir", "shared_handle_writers_actions_mem", "shared_handle_writers_actions_dir",
 		"dirsched_lifecycle_executions", "v2_handles_opened_and_closed", "v2_handles_reopened", "stress_actions_dir-life",
+		"stale_view_executions_mem", "stale_view_executions_dir", "stale_view_core_executions", "v2_handle_views_checked", "v2_views_through_refused_handle",
+		"v2_refused_updates_view_unchanged", "v2_refused_updates_view_advanced_to_store", "v2_refused_multi_transaction_updates", "v2_view_actions_right_after_refusal",
 		"dirsched_executions", "dirsched_directed_executions", "dirsched_executions_interleaved", "dirsched_lock_calls_seen_waiting", "v1_getter_results_correct", "v1_held_keys_still_intact"} {
 		r.RequireAtLeast(c, 1)
 	}
 	r.RequireSetAtLeast("v1_getter_x_cache", 40)
+	r.RequireSetAtLeast("v2_views_after_refused", 3) // complete views right after a refused DestroyKey, SetState, SetCurrent (and AddKey)
+	r.RequireSetAtLeast("stale_view_outcomes", 4)    // B's stale update acknowledged / refused on its own view / refused after the pull, per ring kind
 	r.Extra("distinct_interleavings_all", r.SetSize("interleaving_signatures_all"))
 
 	r.CollectRaces("github.com/cossacklabs/acra")
